@@ -42,6 +42,15 @@ meta={"property":P,"name":N,"summary":src.get("summary"),"needs_to_manifest":src
  "confirmed":{"demo_exit_without_change":int(D0),"demo_exit_with_change":int(D1),"repo_suite_with_change":SUITE,
               "checks_against_changed_tree":json.loads(RES)},
  "how":"tools/seedtest.sh: scratch worktree of /repo HEAD, git apply patch.diff, demo with PYTHONPATH=worktree, pytest -n 8, ./check with VERIF_REPO=worktree"}
+if os.path.exists(old):
+    try:
+        o=json.load(open(old))
+        if o.get("note"): meta["note"]=o["note"]
+        prev=[r for r in o["confirmed"]["checks_against_changed_tree"] if r["exit"]!=1]
+        if prev and not o.get("note") and any(r["exit"]==1 for r in meta["confirmed"]["checks_against_changed_tree"]):
+            meta["first_run_missed_by"]=sorted({r["check"] for r in prev}|set(o.get("first_run_missed_by",[])))
+        elif o.get("first_run_missed_by"): meta["first_run_missed_by"]=o["first_run_missed_by"]
+    except Exception: pass
 json.dump(meta,open(f"/verif/seeded/{P}_{N}/meta.json","w"),indent=1)
 print(json.dumps(meta["confirmed"],indent=1))
 PY
